@@ -4,6 +4,7 @@ import (
 	"bytes"
 	"fmt"
 	"unicode"
+	"unicode/utf8"
 
 	"github.com/cloudspannerecosystem/memefish/char"
 )
@@ -74,7 +75,15 @@ func QuoteSQLIdent(s string) string {
 }
 
 func quoteSQLStringContent(s string, quote rune, buf *bytes.Buffer) {
-	for _, r := range s {
+	for i, r := range s {
+		if r == utf8.RuneError {
+			// A byte that is not part of a valid UTF-8 sequence is written as a hex escape,
+			// otherwise it would be replaced with U+FFFD.
+			if _, size := utf8.DecodeRuneInString(s[i:]); size <= 1 {
+				fmt.Fprintf(buf, `\x%02x`, s[i])
+				continue
+			}
+		}
 		q := quoteSingleEscape(r, quote /* isString */, true)
 		if q != "" {
 			buf.WriteString(q)
